@@ -1432,7 +1432,7 @@ func (x *e4Run) execOp(op e4Op) {
 		// top up with ever smaller appends until not even one byte fits: only then is the volume really full
 		// (the chunk that was refused may have been thousands of blocks long)
 		tries := 0
-		for sz := op.Chunk / 2; sz >= 1 && n != nil && !n.Dir && created && !x.r.Failed() && tries < 200; tries++ {
+		for sz := op.Chunk / 8; sz >= 1 && n != nil && !n.Dir && created && !x.r.Failed() && tries < 60; tries++ {
 			data := mk.Content{Seed: op.D.Seed*1000 + 900 + uint32(sz%97), Len: sz}.Bytes()
 			old := len(n.Data)
 			n.WriteAt(int64(old), data)
